@@ -43,6 +43,7 @@ Mk21(k, l, x) == [kind |-> k, lead |-> l.lead, kwsep |-> l.kwsep, cs |-> l.cs, t
                   sess |-> x.sess, priv |-> x.priv]
 
 In21(d) == /\ PolWF(d)
+           /\ d.lead \in LongLeads => PolNFeat(d) <= 2
            /\ \/ d.ro /\ Modifies(d)          \* the property's subject: full product
               \/ PolNFeat(d) <= 1             \* controls
               \/ ~d.ro /\ Modifies(d) /\ d.priv = "reloaded" /\ PolNFeat(d) <= 2
@@ -58,7 +59,8 @@ Next21 == \/ Pick21(Deco21, Ctx21, 0)                \* every decoration, sessio
           \/ Pick21(PlainDeco21, CtxHist21, 3)       \* undecorated text, every channel / session history / reload
 
 (* ---------------- C22 ---------------- *)
-Leads22  == {"none", "space", "newline", "comment", "dash", "version_wrap"}
+Leads22  == {"none", "space", "newline", "comment", "dash", "version_wrap", "pad_257", "pad_4096"}
+Kwseps22 == {"space", "glued_bq", "glued_punct"}
 Kinds22  == ReadKinds \cup {"insert", "update", "delete", "replace"}
 
 Reason22 == SetToSeq({ r \in [kind : Kinds22, lock : Locks, lockopt : LockOpts, hint : Hints, probe : Probes] :
@@ -66,21 +68,23 @@ Reason22 == SetToSeq({ r \in [kind : Kinds22, lock : Locks, lockopt : LockOpts, 
                                 lock |-> r.lock, lockopt |-> r.lockopt, hint |-> r.hint, probe |-> r.probe,
                                 chan |-> "query", intx |-> "no", ro |-> FALSE, split |-> TRUE, csl |-> TRUE,
                                 sess |-> "plain", priv |-> "static"]) })
-Deco22 == SetToSeq([lead : Leads22, cs : Cases, trail : Trails])
+Deco22 == SetToSeq({ l \in [lead : Leads22, kwsep : Kwseps22, cs : Cases, trail : Trails] :
+                       (l.kwsep # "space" \/ l.lead \in LongLeads) =>
+                          B2N(l.lead # "none") + B2N(l.kwsep # "space") + B2N(l.cs # "lower") + B2N(l.trail # "none") <= 2 })
 Chans22 == {"query", "multi_first", "multi_last", "multi_after_read", "prepared"}
 Ctx22  == SetToSeq([chan : Chans22, intx : Intxs, ro : BOOLEAN, split : BOOLEAN, csl : BOOLEAN, sess : {"plain"}, priv : {"static"}])
 CtxHist22 == SetToSeq({ x \in [chan : {"query", "multi_after_read", "prepared"}, intx : Intxs, ro : BOOLEAN, split : BOOLEAN,
                                 csl : {TRUE}, sess : Sessions, priv : Privs] :
                            x.sess # "plain" \/ x.priv # "static" })
-PlainDeco22 == <<[lead |-> "none", cs |-> "lower", trail |-> "none"]>>
+PlainDeco22 == <<[lead |-> "none", kwsep |-> "space", cs |-> "lower", trail |-> "none"]>>
 
-Mk22(r, l, x) == [kind |-> r.kind, lead |-> l.lead, kwsep |-> "space", cs |-> l.cs, trail |-> l.trail,
+Mk22(r, l, x) == [kind |-> r.kind, lead |-> l.lead, kwsep |-> l.kwsep, cs |-> l.cs, trail |-> l.trail,
                   lock |-> r.lock, lockopt |-> r.lockopt, hint |-> r.hint, probe |-> r.probe,
                   chan |-> x.chan, intx |-> x.intx, ro |-> x.ro, split |-> x.split, csl |-> x.csl,
                   sess |-> x.sess, priv |-> x.priv]
 
 MainUser(d) == ~d.ro /\ d.split /\ d.csl /\ d.intx = "no"
-LexNFeat(d) == B2N(d.lead # "none") + B2N(d.cs # "lower") + B2N(d.trail # "none")
+LexNFeat(d) == B2N(d.lead # "none") + B2N(d.kwsep # "space") + B2N(d.cs # "lower") + B2N(d.trail # "none")
 
 In22(d) == /\ PolWF(d)
            /\ ~d.csl => d.lock # "none"            \* the switch only matters for locking reads
@@ -88,7 +92,7 @@ In22(d) == /\ PolWF(d)
            /\ \/ MainUser(d)                       \* full lexical product
               \/ LexNFeat(d) <= 1                  \* every context, lightly decorated
 
-DecoFew22 == SelectSeq(Deco22, LAMBDA l : B2N(l.lead # "none") + B2N(l.cs # "lower") + B2N(l.trail # "none") <= 1)
+DecoFew22 == SelectSeq(Deco22, LAMBDA l : B2N(l.lead # "none") + B2N(l.kwsep # "space") + B2N(l.cs # "lower") + B2N(l.trail # "none") <= 1)
 MainCtx22 == SelectSeq(Ctx22, LAMBDA x : ~x.ro /\ x.split /\ x.csl /\ x.intx = "no")
 
 Pick22(rs, ds, xs, off) ==
